@@ -120,7 +120,7 @@ struct Opts {
 fn setup_env<EXT, DB: Database>(evm: &mut Evm<'_, EXT, DB>, sc: &Value, names: &Names, fork_idx: usize) {
     let b = &mut evm.context.evm.env.block;
     b.number = U256::from(100u64);
-    b.timestamp = U256::from(1_700_000_000u64);
+    b.timestamp = U256::from(700_000_000u64);
     b.coinbase = names.addr(sc["coinbase"].as_u64().unwrap());
     b.gas_limit = U256::from(30_000_000u64);
     b.basefee = U256::from(sc["basefee"].as_u64().unwrap());
@@ -144,6 +144,10 @@ fn set_tx<EXT, DB: Database>(evm: &mut Evm<'_, EXT, DB>, tx: &Value, sc: &Value,
     t.transact_to = if to == 0 { TxKind::Create } else { TxKind::Call(names.addr(to)) };
     t.nonce = None;
     t.chain_id = None;
+    let prio = tx["prio"].as_i64().unwrap_or(-1);
+    if prio >= 0 {
+        t.gas_priority_fee = Some(U256::from(prio as u64));
+    }
     t.access_list = tx["al"].as_array().cloned().unwrap_or_default().iter().map(|e| AccessListItem {
         address: names.addr(e["addr"].as_u64().unwrap()),
         storage_keys: e["keys"].as_array().unwrap().iter().map(|k| B256::from(U256::from(k.as_u64().unwrap()))).collect(),
